@@ -47,8 +47,18 @@ def check(ctx):
                     if isinstance(side, ast.Constant) and isinstance(side.value, str) and len(side.value) == 1 and not side.value.isalnum() \
                             and side.value not in "[]() ":
                         found.append(("concat", side.value))
-            if isinstance(x, ast.AugAssign) and isinstance(x.op, ast.Add) and isinstance(x.value, ast.BinOp):
-                pass
+            if isinstance(x, ast.JoinedStr):
+                for part in x.values:
+                    if isinstance(part, ast.Constant) and isinstance(part.value, str):
+                        for ch in part.value:
+                            if not ch.isalnum() and ch not in "[]() _-%:":
+                                found.append(("fstring", ch))
+            if isinstance(x, ast.BinOp) and isinstance(x.op, ast.Mod) and isinstance(x.left, ast.Constant) and isinstance(x.left.value, str):
+                import re as _re
+                for piece in _re.split(r"%[sdr]", x.left.value):
+                    for ch in piece:
+                        if not ch.isalnum() and ch not in "[]() _-%:":
+                            found.append(("format", ch))
         seps[f.qualname] = found
         ok = bool(found) and all(s == "." for _, s in found)
         ctx.ob("separator", f, "%s uses %s" % (f.qualname, sorted(set(found))), ok,
